@@ -148,6 +148,13 @@ def expected_accept(case, k):
     return k < 0 or all(s == k for s in case["signers"])
 
 
+RANK = {"doc": 0, "dig": 2, "sigs": 3}
+
+
+def ordered(mods):
+    return sorted(mods, key=lambda m: RANK.get(m["field"], 1))
+
+
 def gen(c, quick):
     cases = []
     singles = [m for m in MODS]
@@ -158,9 +165,10 @@ def gen(c, quick):
              if a["field"] != b["field"] and "none" not in (a["field"], b["field"]) and not a["single"] and not b["single"]
              and not (a["field"] == "head" or b["field"] == "head")
              and not (a["field"] == "sigs" and b["field"] == "sigs")]
-    # sig-list edits go last: they read the header as it is then
-    pairs = [(a, b) if b["field"] == "sigs" or a["field"] != "sigs" else (b, a) for a, b in pairs]
-    # a foreign signature made AFTER a modification covers the modified header: keep those out of P's simple rule
+    # order inside a case: document edits first (a recalculation rewrites the digest), digest edits after them,
+    # signature-list edits last (they read the header as it is then)
+    pairs = [tuple(ordered([a, b])) for a, b in pairs]
+    # a signature made AFTER a modification covers the modified header: keep those out of P's simple rule
     pairs = [(a, b) for a, b in pairs if not (b["field"] == "sigs" and any(o[0] in (RAWSIGN, SIGN) for o in b["ops"]))]
     seen, uniq = set(), []
     for a, b in pairs:
@@ -178,8 +186,7 @@ def gen(c, quick):
                 if d["field"] not in (a["field"], b["field"], "none", "head", "sigs") and not d["single"]]
         c.rng.shuffle(trip)
         for a, b, d in trip[:3000]:
-            mods = [d, a, b] if b["field"] == "sigs" else [a, b, d]
-            cases.append(("triple", make_case(c.rng.choice(list(PREFIX)), mods)))
+            cases.append(("triple", make_case(c.rng.choice(list(PREFIX)), ordered([a, b, d]))))
     return cases
 
 
@@ -190,13 +197,27 @@ def corpus_case(line):
 
 def parse_out(line, n):
     vs = parse_wire(line)
-    if len(vs) != 1 or len(vs[0]) != n:
+    if len(vs) != 2 or len(vs[0]) != n or not all(isinstance(r, list) for r in vs[0]):
         return None
     return [[x.decode() for x in row] for row in vs[0]]
 
 
-def judge_and_compare(c, stream, case, go_rows, mo_rows, line):
+def op_outcomes(line):
+    vs = parse_wire(line)
+    return [x.decode() for x in vs[1]] if len(vs) == 2 else []
+
+
+def judge_and_compare(c, stream, case, go_rows, mo_rows, line, go_ops, mo_ops):
     ops = case["ops"]
+    # a surgery the implementation refuses to parse did not happen: the envelope is the one before it
+    applied = [o[0] for o, r in zip(ops, go_ops) if r == "ok"]
+    case = dict(case)
+    if case["garbage"] and not ({EMPTYSIG, NULLSIG} & set(applied)):
+        case["garbage"] = case["first_garbage"] = False
+    if go_ops != mo_ops:
+        c.report("implementation and model differ on the outcomes of the operations building the envelope [%s]: %s vs %s"
+                 % (show(ops), go_ops, mo_ops), {"case": c10_line(FX_REPAIRED, 0, ops), "implementation": go_ops, "model": mo_ops},
+                 finding_id=(F10 if EMPTYSIG in {o[0] for o in ops} else None))
     hist = show(ops)
     codes = {o[0] for o in ops}
     for k, g, m in zip(KEYS, go_rows, mo_rows):
@@ -314,7 +335,7 @@ def run(c):
                 c.count(stream, 1)
                 c.report("harness or model could not run the case: %s -> %s / %s" % (l, g, m), {"case": l}, no_input=True)
                 continue
-            judge_and_compare(c, stream, cs, gr, mr, l)
+            judge_and_compare(c, stream, cs, gr, mr, l, op_outcomes(g), op_outcomes(m))
         for i in (0, len(cases) // 3, 2 * len(cases) // 3, len(cases) - 1):
             stream, cs = cases[i]
             c.sample({"stream": stream, "signed": cs["prefix"], "modification": cs["names"], "history": show(cs["ops"]),
